@@ -29,8 +29,11 @@ type Case struct {
 	AutoBind  bool `json:"autobind,omitempty"`
 	// SelfAutobind: autobind lists the package the models are generated into; Again: generation is run
 	// a second time in the tree it produced
-	SelfAutobind bool `json:"self_autobind,omitempty"`
-	Again        bool `json:"again,omitempty"`
+	// UserModelDir: directory of the user's model package (package um); "" = um. Go packages are
+	// often named by the tail of their directory (go-um, myum)
+	UserModelDir string `json:"user_model_dir,omitempty"`
+	SelfAutobind bool   `json:"self_autobind,omitempty"`
+	Again        bool   `json:"again,omitempty"`
 	// MapInput: this input object type is bound to map[string]interface{}
 	MapInput string `json:"map_input,omitempty"`
 }
@@ -82,9 +85,13 @@ func Generate(c Case, keep bool) (dir string, f *vfrun.Failure) {
 		// an object bound to a user-written Go type, with several schema fields mapped to the same Go
 		// field (models.<T>.fields.<f>.fieldName) - the documented way to alias a field
 		rel, _ := filepath.Rel(filepath.Join(work, "h"), dir)
-		imp := "vh/" + filepath.ToSlash(rel) + "/um"
-		_ = os.MkdirAll(filepath.Join(dir, "um"), 0o755)
-		_ = os.WriteFile(filepath.Join(dir, "um", "um.go"), []byte("package um\n\n// VhOverlap is a hand-written model.\ntype VhOverlap struct {\n\tA     *string\n\tB     int\n\tUpper *string\n}\n"), 0o644)
+		umDir := c.UserModelDir
+		if umDir == "" {
+			umDir = "um"
+		}
+		imp := "vh/" + filepath.ToSlash(rel) + "/" + umDir
+		_ = os.MkdirAll(filepath.Join(dir, umDir), 0o755)
+		_ = os.WriteFile(filepath.Join(dir, umDir, "um.go"), []byte("package um\n\n// VhOverlap is a hand-written model.\ntype VhOverlap struct {\n\tA     *string\n\tB     int\n\tUpper *string\n}\n"), 0o644)
 		_ = os.WriteFile(filepath.Join(dir, "zz_user.graphqls"), []byte("type VhOverlap {\n  a: String\n  aAlias: String\n  b: Int!\n  bAlias: Int!\n  upper: String\n  UPPER: String\n}\n\nextend type Query {\n  vhOverlap: VhOverlap\n}\n"), 0o644)
 		if c.AutoBind {
 			// bound by name through autobind; the models entry only carries the field aliases
@@ -352,6 +359,10 @@ func gen(t *rapid.T) Case {
 		vfrun.Label("generated-twice")
 	}
 	if c.UserModel {
+		c.UserModelDir = rapid.SampledFrom([]string{"", "", "go-um", "myum", "um.v2"}).Draw(t, "usermodeldir")
+		if c.UserModelDir != "" {
+			vfrun.Label("user-model-package-named-by-directory-tail")
+		}
 		c.AutoBind = rapid.Bool().Draw(t, "autobind")
 		vfrun.Label("user-model-with-aliased-fields")
 		if c.AutoBind {
